@@ -188,9 +188,18 @@ def streamed(r, sel, chunks, width, key, entry=None, force=False, check_ckpt=Tru
             e = r.choice(ENTRY if std else ("append", "hwrite"))
         b.op(f"{e} 0 {hexbytes(c)}")
         b.tags.append(e)
+    # the provided one-shot helper on an already fed hasher: the last chunk goes through `hashN(self, chunk)`
+    last = None
+    if chunks and r.random() < 0.3:
+        last = b.ops.pop()
+        b.tags.pop()
+        b.tags.append("hashfin")
     if check_ckpt:
         b.op("ckpt 0")
-    i = b.op(f"fin 0 {width}")
+    if last is not None:
+        i = b.op(f"hashfin 0 {width} {last.split(' ')[2]}")
+    else:
+        i = b.op(f"fin 0 {width}")
     j = b.op(f"{'fhash' if force else 'hash'} {sel} {width} {kstr(key)} {hexbytes(data)}")
     b.eq(i, j, "chunked result differs from one-shot hash of the concatenation")
     return b
